@@ -271,6 +271,105 @@ def exp_payoffs(data, N, nums, i, opp):
     return out
 
 
+
+# ------------------------------------------------------------------ hardening helpers (dress / state / options / errors)
+def make_probes(rng, nums):
+    """fixed arguments with which every form of the same game is interrogated"""
+    N = len(nums)
+    probes = {"profiles": [tuple(int(x) for x in a) for a in np.ndindex(*nums)][:40], "opps": []}
+    for i in range(N):
+        others = [(i + 1 + j) % N for j in range(N - 1)]
+        lst = [tuple(rng.randrange(nums[pl]) for pl in others) for _ in range(3)]
+        if N >= 2:
+            lst.append(tuple(dyadic_simplex(rng, nums[pl]) for pl in others))
+            lst.append(tuple(dyadic_simplex(rng, nums[pl]) if rng.random() < 0.5 else rng.randrange(nums[pl]) for pl in others))
+        probes["opps"].append(lst)
+    return probes
+
+
+def summarize(g, probes, with_dom=True):
+    """everything the public API reports about a game, as plain Python numbers (canonical for comparison)"""
+    N = g.N
+    out = {"N": N, "nums": tuple(int(k) for k in g.nums_actions),
+           "profile_array": np.asarray(g.payoff_profile_array, dtype=float).tolist(),
+           "getitem": [np.asarray(g[a] if N > 1 else [g[int(a[0])]], dtype=float).tolist() for a in probes["profiles"]],
+           "is_nash": [bool(g.is_nash(a)) for a in probes["profiles"]],
+           "is_nash_tol1": [bool(g.is_nash(a, tol=1.0)) for a in probes["profiles"][:10]]}
+    per = []
+    for i, p in enumerate(g.players):
+        rec = {"num_actions": int(p.num_actions), "num_opponents": int(p.num_opponents)}
+        for j, opp in enumerate(probes["opps"][i]):
+            arg = None if N == 1 else (opp[0] if N == 2 else opp)
+            rec["pv%d" % j] = np.asarray(p.payoff_vector(arg), dtype=float).tolist()
+            rec["br%d" % j] = int(p.best_response(arg))
+            rec["brs%d" % j] = [int(k) for k in p.best_response(arg, tie_breaking=False, tol=0.5)]
+            rec["ibr%d" % j] = [bool(p.is_best_response(k, arg)) for k in range(p.num_actions)]
+        if with_dom:
+            rec["dominated"] = [int(k) for k in p.dominated_actions()]
+        per.append(rec)
+    out["players"] = per
+    return out
+
+
+def first_diff(a, b, path=""):
+    if isinstance(a, dict) and isinstance(b, dict):
+        for k in a:
+            if k not in b:
+                return path + "/" + str(k)
+            d = first_diff(a[k], b[k], path + "/" + str(k))
+            if d:
+                return d
+        return None
+    if isinstance(a, (list, tuple)) and isinstance(b, (list, tuple)):
+        if len(a) != len(b):
+            return path + " (length)"
+        for k, (x, y) in enumerate(zip(a, b)):
+            d = first_diff(x, y, path + "[%d]" % k)
+            if d:
+                return d
+        return None
+    return None if a == b else path
+
+
+ARRAY_DRESS = ["list", "tuple", "int64", "int32", "float32", "F-order", "view", "rows-of-larger"]
+
+
+def dress_array(a, how):
+    """the same integer-valued array in another container / dtype / memory layout"""
+    a = np.asarray(a)
+    if how == "list":
+        return a.tolist()
+    if how == "tuple":
+        def tt(x):
+            return tuple(tt(y) for y in x) if isinstance(x, list) else x
+        return tt(a.tolist())
+    if how in ("int64", "int32", "float32"):
+        return a.astype(how)
+    if how == "F-order":
+        return np.asfortranarray(a.astype(float))
+    if how == "view":                      # every second entry along the first axis of a larger array
+        big = np.zeros((2 * a.shape[0],) + a.shape[1:])
+        big[::2] = a
+        big[1::2] = -77
+        return big[::2]
+    big = np.full((a.shape[0] + 2,) + a.shape[1:], 55.0)      # rows of a larger array
+    big[1:-1] = a
+    return big[1:-1]
+
+
+def expect_error(ctx, label, exc_types, fn, info=None):
+    """a documented error: anything else (no error, another exception type) is reported"""
+    ctx.count("expected_error:" + label)
+    try:
+        r = fn()
+    except exc_types:
+        return
+    except Exception as e:
+        ctx.fail("wrong_exception", "%s raised %r instead of %s" % (label, e, "/".join(t.__name__ for t in exc_types)), {"call": label, "info": info}, repr(e), None)
+        return
+    ctx.fail("missing_exception", "%s did not raise %s" % (label, "/".join(t.__name__ for t in exc_types)), {"call": label, "info": info}, repr(r)[:200], None)
+
+
 SHAPES_QUICK = [(1,), (3,), (2, 2), (2, 3), (3, 2), (1, 4), (3, 1), (1, 1), (5, 4), (2, 3, 4), (3, 2, 2), (4, 2, 3), (1, 3, 2),
                 (2, 3, 1), (2, 3, 2, 3), (3, 2, 1, 2)]
 SHAPES_MORE = [(5,), (3, 5), (5, 5), (4, 1), (2, 2, 2), (5, 3, 2), (3, 4, 5), (2, 2, 3, 4), (3, 2, 4, 2), (2, 1, 2, 3),
@@ -283,7 +382,10 @@ def run(ctx):
     from quantecon.game_theory.game_converters import GAMReader, GAMWriter, to_gam, from_gam
     thorough = ctx.tier == "thorough"
     rng = ctx.rng
+    import time as _tt
+    _p0 = _tt.time()
     ctx.proofs()
+    ctx.count("time_s:proof build (shared lock + make + Props)", int(_tt.time() - _p0))
     W = Watch(ctx)
     TOL = frac(Player([1.0, 2.0]).tol)          # default tolerance of the code, read at run time
     ctx.notes.append("Player.tol read from the implementation: %r" % float(TOL))
@@ -817,6 +919,178 @@ def run(ctx):
     ctx.count("dominated:arrays where the tolerance-0 minmax run does not end with status 0 or changes the verdict", len(nt))
     if nt:
         ctx.notes.append("C14_dominated_spec hypothesis (inner status 0) not met / verdict differs at tolerance 0 on: %s" % [jsonable(dom_meta[i]) for i in nt[:3]])
+
+    # ============================================================ 6. hardening: dress, state, aliasing, options, errors (oracle only)
+    hshapes = [(3,), (2, 3), (3, 1), (2, 3, 2), (1, 2, 3), (2, 2, 2, 2)] + ([(4, 3), (3, 2, 4), (2, 1, 3, 2), (5,)] if thorough else [])
+    for nums in hshapes:
+        N = len(nums)
+        data = rand_payoffs(rng, tuple(nums) + (N,), "int").astype(float)
+        probes = make_probes(rng, nums)
+        canon_g = NormalFormGame(data.copy())
+        try:
+            canon = summarize(canon_g, probes)
+        except Exception as e:
+            ctx.fail("raises", "a public method raised on a valid game: %r" % (e,), {"data": data}, repr(e), None)
+            continue
+        # ---- class 1: the same game from other containers / dtypes / memory layouts
+        arrs = [np.ascontiguousarray(np.transpose(data[..., i], tuple(range(i, N)) + tuple(range(i)))) for i in range(N)]
+        for how in ARRAY_DRESS:
+            for route in ("profile_array", "players"):
+                ctx.count("dress:payoffs:%s" % how)
+                try:
+                    if route == "profile_array":
+                        src = dress_array(data, how)
+                        snap = np.array(src, dtype=float)
+                        g2 = NormalFormGame(src)
+                    else:
+                        srcs = [dress_array(a, how) for a in arrs]
+                        snap = [np.array(x, dtype=float) for x in srcs]
+                        g2 = NormalFormGame([Player(x) for x in srcs])
+                    got = summarize(g2, probes)
+                except Exception as e:
+                    ctx.fail("raises", "building / querying the game from payoffs given as %s (%s) raised %r" % (how, route, e), {"data": data, "dress": how, "route": route}, repr(e), None)
+                    continue
+                ctx.case(("dress_payoffs", tuple(nums), how, route), nontrivial=(N >= 2))
+                d = first_diff(canon, got)
+                if d:
+                    ctx.fail("dress_payoffs", "the game built from payoffs given as %s (%s) answers differently from the float64 C-ordered one at %s" % (how, route, d),
+                             {"data": data, "dress": how, "route": route, "where": d}, None, None)
+                now = np.array(src, dtype=float) if route == "profile_array" else [np.array(x, dtype=float) for x in srcs]
+                same = np.array_equal(now, snap) if route == "profile_array" else all(np.array_equal(x, y) for x, y in zip(now, snap))
+                if not same:
+                    ctx.fail("mutation", "querying a game changed the caller's payoff data (%s, %s)" % (how, route), {"call": "summarize", "dress": how, "route": route, "data": data}, None, None)
+        # mixed actions / perturbations in other forms
+        for i, pl in enumerate(canon_g.players):
+            if N == 1:
+                continue
+            opp = probes["opps"][i][3]
+            ref_pv = np.asarray(pl.payoff_vector(opp[0] if N == 2 else opp), dtype=float).tolist()
+            pert = np.array([rng.randrange(-8, 9) / 8.0 for _ in range(nums[i])])
+            ref_br = int(pl.best_response(opp[0] if N == 2 else opp, payoff_perturbation=pert))
+            for how in ("list", "tuple", "float32", "view"):
+                ctx.count("dress:mixed_action:%s" % how)
+                dr = [dress_array(a, how) if how != "float32" else np.asarray(a, dtype=np.float32) for a in opp]
+                snap = [np.array(x, dtype=float) for x in dr]
+                arg = dr[0] if N == 2 else rng.choice([tuple, list])(dr)
+                try:
+                    pv = np.asarray(pl.payoff_vector(arg), dtype=float).tolist()
+                    br = int(pl.best_response(arg, payoff_perturbation=dress_array(pert, how) if how != "float32" else pert.astype(np.float32)))
+                except Exception as e:
+                    ctx.fail("raises", "payoff_vector / best_response raised with mixed actions given as %s: %r" % (how, e), {"data": data, "player": i, "dress": how}, repr(e), ref_pv)
+                    continue
+                if pv != ref_pv or br != ref_br:
+                    ctx.fail("dress_mixed_action", "mixed opponent actions / perturbation given as %s change the answer" % how, {"data": data, "player": i, "opponents": opp, "dress": how}, [pv, br], [ref_pv, ref_br])
+                if not all(np.array_equal(np.array(x, dtype=float), y) for x, y in zip(dr, snap)):
+                    ctx.fail("mutation", "payoff_vector / best_response changed the caller's mixed action", {"call": "payoff_vector", "dress": how, "data": data}, None, None)
+        # ---- class 2: two games alive, modified in turn; after every step each must equal a FRESH game built from its data
+        gA = NormalFormGame(data.copy())
+        dataB = rand_payoffs(rng, tuple(nums) + (N,), "int").astype(float)
+        gB = NormalFormGame(dataB.copy())
+        curA, curB = data.copy(), dataB.copy()
+        for step in range(4):
+            which = rng.choice(["A", "B"])
+            gX, cur = (gA, curA) if which == "A" else (gB, curB)
+            a = tuple(rng.randrange(k) for k in nums)
+            v = [float(rng.randrange(-9, 10)) for _ in range(N)]
+            op = rng.choice(["set", "query", "write_returned"])
+            ctx.count("seq:%s" % op)
+            try:
+                if op == "set":
+                    if N == 1:
+                        gX[a[0]] = v[0]
+                    else:
+                        gX[a] = v
+                    cur[a] = v
+                elif op == "write_returned":      # results handed out must not be live views of the game
+                    ppa = gX.payoff_profile_array
+                    ppa[...] = -12345.0
+                    if N > 1:
+                        item = gX[a]
+                        item[...] = 999.0
+                else:
+                    summarize(gX, probes, with_dom=False)
+                for name, gY, curY in (("A", gA, curA), ("B", gB, curB)):
+                    d = first_diff(summarize(NormalFormGame(curY.copy()), probes, with_dom=False), summarize(gY, probes, with_dom=False))
+                    if d:
+                        ctx.fail("stale_state", "after '%s' on game %s, game %s answers differently from a fresh game built from its current payoffs at %s" % (op, which, name, d),
+                                 {"data_A": data, "data_B": dataB, "step": step, "op": op, "profile": list(a), "value": v, "where": d}, None, None)
+            except Exception as e:
+                ctx.fail("raises", "a call sequence on two live games raised %r" % (e,), {"data_A": data, "data_B": dataB, "op": op}, repr(e), None)
+            ctx.case(("seq_two_games", tuple(nums), step, op, which), nontrivial=(N >= 2))
+        # ---- class 4: optional arguments omitted / explicit default / falsy-but-valid
+        for i, pl in enumerate(canon_g.players):
+            opp = probes["opps"][i][0]
+            arg = None if N == 1 else (opp[0] if N == 2 else opp)
+            zeros = np.zeros(nums[i])
+            variants = {
+                "best_response": [lambda: pl.best_response(arg), lambda: pl.best_response(arg, tie_breaking="smallest", payoff_perturbation=None, tol=None, random_state=None),
+                                  lambda: pl.best_response(arg, tol=pl.tol), lambda: pl.best_response(arg, payoff_perturbation=zeros), lambda: pl.best_response(arg, payoff_perturbation=zeros.tolist()),
+                                  lambda: pl.best_response(opponents_actions=arg)],
+                "best_responses": [lambda: pl.best_response(arg, tie_breaking=False).tolist(), lambda: pl.best_response(arg, False, None, None).tolist(), lambda: pl.best_response(arg, tie_breaking=False, tol=pl.tol).tolist()],
+                "is_best_response": [lambda: bool(pl.is_best_response(0, arg)), lambda: bool(pl.is_best_response(0, arg, None)), lambda: bool(pl.is_best_response(0, arg, tol=pl.tol)), lambda: bool(pl.is_best_response(own_action=0, opponents_actions=arg))],
+                "is_dominated": [lambda: bool(pl.is_dominated(0)), lambda: bool(pl.is_dominated(0, tol=None, method=None)), lambda: bool(pl.is_dominated(0, tol=pl.tol)), lambda: bool(pl.is_dominated(action=0))],
+                "dominated_actions": [lambda: list(pl.dominated_actions()), lambda: list(pl.dominated_actions(tol=None, method=None)), lambda: list(pl.dominated_actions(tol=pl.tol))],
+                "delete_action": [lambda: pl.delete_action(0).payoff_array.tolist(), lambda: pl.delete_action(0, 0).payoff_array.tolist(), lambda: pl.delete_action(action=0, player_idx=0).payoff_array.tolist(),
+                                  lambda: pl.delete_action(np.int64(0), np.int32(0)).payoff_array.tolist()] if nums[i] >= 2 else [],
+            }
+            for name, fns in variants.items():
+                res = []
+                for f in fns:
+                    try:
+                        res.append(f())
+                    except Exception as e:
+                        res.append("raised %r" % (e,))
+                ctx.count("optional:%s" % name, len(fns))
+                if any(r != res[0] for r in res[1:]) or (res and isinstance(res[0], str)):
+                    ctx.fail("optional_argument", "%s: omitted / explicit default / equivalent arguments give different answers" % name, {"data": data, "player": i, "opponents": opp, "call": name}, res, None)
+        prof = probes["profiles"][0]
+        nres = [bool(canon_g.is_nash(prof)), bool(canon_g.is_nash(prof, None)), bool(canon_g.is_nash(prof, tol=canon_g.players[0].tol)), bool(canon_g.is_nash(action_profile=prof, tol=None))]
+        gres = [to_gam(canon_g), to_gam(canon_g, None), to_gam(canon_g, file_path=None)]
+        cres = [np.asarray(NormalFormGame(data).payoff_profile_array).tolist(), np.asarray(NormalFormGame(data, dtype=None).payoff_profile_array).tolist()]
+        ctx.count("optional:is_nash/to_gam/constructor", 9)
+        if len(set(nres)) != 1 or len(set(gres)) != 1 or cres[0] != cres[1]:
+            ctx.fail("optional_argument", "is_nash / to_gam / NormalFormGame: omitted vs explicit default arguments differ", {"data": data}, [nres, gres[:1]], None)
+        # tie_breaking='random': forms of random_state; equal seeds (Python int / NumPy ints) give equal answers
+        for i, pl in enumerate(canon_g.players):
+            opp = probes["opps"][i][0]
+            arg = None if N == 1 else (opp[0] if N == 2 else opp)
+            best = [int(k) for k in pl.best_response(arg, tie_breaking=False, tol=2.0)]
+            outs = {}
+            for form, mk in (("int", lambda: 7), ("np.int64", lambda: np.int64(7)), ("np.int32", lambda: np.int32(7)), ("RandomState", lambda: np.random.RandomState(7)),
+                             ("Generator", lambda: np.random.default_rng(7)), ("None", lambda: None)):
+                ctx.count("random_state:%s" % form)
+                try:
+                    outs[form] = [int(pl.best_response(arg, tie_breaking="random", tol=2.0, random_state=mk())) for _ in range(3)]
+                except Exception as e:
+                    ctx.fail("raises", "best_response(tie_breaking='random', random_state=%s) raised %r" % (form, e), {"data": data, "player": i, "random_state": form}, repr(e), best)
+                    continue
+                if any(k not in best for k in outs[form]):
+                    ctx.fail("best_response_random", "best_response(tie_breaking='random') returned an action outside the tol-best-response set", {"data": data, "player": i, "random_state": form, "tol": 2.0}, outs[form], best)
+            if "int" in outs and (outs.get("np.int64", outs["int"]) != outs["int"] or outs.get("np.int32", outs["int"]) != outs["int"] or outs.get("RandomState", outs["int"])[0] != outs["int"][0]):
+                ctx.fail("random_state_forms", "the same seed given as Python int / NumPy int / RandomState(seed) gives different draws", {"data": data, "player": i}, outs, None)
+    # ---- class 6: documented errors
+    sq = np.arange(6.0).reshape(2, 3)
+    g23 = NormalFormGame(np.zeros((2, 3, 2)))
+    g1 = NormalFormGame([Player([1.0, 2.0, 3.0])])
+    for label, excs, fn in [
+            ("Player(scalar)", (ValueError,), lambda: Player(3.0)),
+            ("Player(empty)", (ValueError,), lambda: Player(np.zeros((0, 2)))),
+            ("NormalFormGame(non-square matrix)", (ValueError,), lambda: NormalFormGame(sq)),
+            ("NormalFormGame(profile array, last axis != N)", (ValueError,), lambda: NormalFormGame(np.zeros((2, 3, 3)))),
+            ("NormalFormGame(players with inconsistent shapes)", (ValueError,), lambda: NormalFormGame([Player(np.zeros((2, 3))), Player(np.zeros((2, 2)))])),
+            ("NormalFormGame(players with different dtypes)", (ValueError,), lambda: NormalFormGame([Player(np.zeros((2, 2))), Player(np.zeros((2, 2), dtype=int))])),
+            ("NormalFormGame(action count 0)", (ValueError,), lambda: NormalFormGame((2, 0))),
+            ("g[profile of wrong length]", (IndexError,), lambda: g23[(0, 1, 0)]),
+            ("g[non-sequence]", (TypeError,), lambda: g23[1]),
+            ("1-player g[tuple]", (TypeError,), lambda: g1[(0,)]),
+            ("g[a] = value of wrong length", (ValueError,), lambda: g23.__setitem__((0, 1), [1.0, 2.0, 3.0])),
+            ("g[a] = scalar", (TypeError,), lambda: g23.__setitem__((0, 1), 1.0)),
+            ("best_response(tie_breaking='largest')", (ValueError,), lambda: g23.players[0].best_response(0, tie_breaking="largest")),
+            ("is_dominated(method='nosuchmethod')", (ValueError,), lambda: g23.players[0].is_dominated(0, method="nosuchmethod")),
+            ("delete_action of the only action", (ValueError,), lambda: NormalFormGame(np.zeros((1, 2, 2))).delete_action(0, 0)),
+            ("delete_action(player out of range)", (ValueError, IndexError), lambda: g23.delete_action(2, 0)),
+            ("delete_action(action out of range)", (IndexError,), lambda: g23.delete_action(0, 2))]:
+        expect_error(ctx, label, excs, fn)
 
     # ============================================================ 4. non-mutation around dynamics objects (observed only)
     from scipy.stats import norm
